@@ -171,9 +171,16 @@ class SimProtoExporter:
 
         elif isinstance(output, BundleInstance):
             # Allow for `Diff` bundles
-            if output.bundle is not Diff:
+            if output.of is not Diff:
                 raise ValueError(f"Invalid Noise Output: {output}")
-            output_p, output_n = output.p.name, output.n.name
+            # The testbench has been elaborated by now. Refer to the flattened `p` and `n` signals.
+            from ..elab.passes.flatten_bundles import THE_CACHE, Path
+
+            flat = THE_CACHE.bundle_insts.get(id(output), None)
+            if flat is None:
+                raise ValueError(f"Invalid Noise Output: {output} is not part of the testbench")
+            output_p = flat.signals[Path(["p"])].name
+            output_n = flat.signals[Path(["n"])].name
 
         elif is_connectable(output):
             # Single-ended Signal output
